@@ -160,6 +160,9 @@ func (ch *channel) addInitDataAndUpdateTimescale(stream stream, init *mp4.InitSe
 	case "text":
 		r.timeScaleOut = 1_000
 	}
+	if r.timeScaleIn == 0 || r.timeScaleOut == 0 {
+		return fmt.Errorf("media timescale is zero in init segment")
+	}
 	trak.Mdia.Mdhd.Timescale = r.timeScaleOut
 	lang := getLang(trak.Mdia)
 	var bitrate uint32
